@@ -993,4 +993,59 @@ for i$u := 0; i$u < 3; i$u++ {
 	tot$u += v$u
 }
 _ = tot$u
+
+### structphi funcval
+@decls
+type Cmd$u struct {
+	name string
+	run  func()
+}
+
+func qa$u()          { rt.Enter($e0) }
+func qb$u()          { rt.Enter($e1) }
+func exec$u(c Cmd$u) { rt.Enter($e2); c.run() }
+@body
+for i$u := 0; i$u < 2; i$u++ {
+	c$u := Cmd$u{name: "a", run: qa$u}
+	if i$u == 1 {
+		c$u = Cmd$u{name: "b", run: qb$u}
+	}
+	exec$u(c$u)
+}
+
+### structphiiface iface
+@decls
+type I$u interface{ m() }
+type A$u struct{ n int }
+type B$u struct{ n int }
+type Holder$u struct {
+	n int
+	i I$u
+}
+
+func (a A$u) m()           { rt.Enter($e0) }
+func (b B$u) m()           { rt.Enter($e1) }
+func use$u(h Holder$u) { rt.Enter($e2); h.i.m() }
+@body
+for k$u := 0; k$u < 2; k$u++ {
+	h$u := Holder$u{n: 1, i: A$u{}}
+	if k$u == 1 {
+		h$u = Holder$u{n: 2, i: B$u{}}
+	}
+	use$u(h$u)
+}
+
+### arrayphi funcval
+@decls
+func qa$u() { rt.Enter($e0) }
+func qb$u() { rt.Enter($e1) }
+func call$u(fs [1]func()) { rt.Enter($e2); fs[0]() }
+@body
+for k$u := 0; k$u < 2; k$u++ {
+	fs$u := [1]func(){qa$u}
+	if k$u == 1 {
+		fs$u = [1]func(){qb$u}
+	}
+	call$u(fs$u)
+}
 `
